@@ -68,6 +68,11 @@ pub fn check(rep: &mut Report) {
             // kelvin -> scale -> kelvin
             cases.push(Case { family: "temperature", expr: format!("from_celsius(°C({} K)) -> K", lit(x)), expect: x, tol: t });
             cases.push(Case { family: "temperature", expr: format!("from_fahrenheit(°F({} K)) -> K", lit(x)), expect: x, tol: 2.0 * t });
+            // the same temperature held in prefixed kelvin and as a derived expression
+            cases.push(Case { family: "temperature", expr: format!("from_celsius(°C(({} * 1000) mK)) -> K", lit(x)), expect: x, tol: 2.0 * t });
+            cases.push(Case { family: "temperature", expr: format!("from_fahrenheit(°F(({} / 1000) kK)) -> K", lit(x)), expect: x, tol: 2.0 * t });
+            cases.push(Case { family: "temperature", expr: format!("from_celsius(({} k_B K / k_B) -> °C) -> K", lit(x)), expect: x, tol: 2.0 * t });
+            cases.push(Case { family: "temperature", expr: format!("(({} * 1000) mK -> °C) - ({} K -> °C)", lit(x), lit(x)), expect: 0.0, tol: 2.0 * t });
         }
     }
     // 2. unix time, 3. julian date
